@@ -132,12 +132,14 @@ def c2m_protos(chk, quick):
             l = l.strip()
             if l and not l.startswith('#'):
                 protos.append(json.loads(l))
+    protos += G.shaped_core()   # aggregates given as C type trees: nested members sharing eightbytes with siblings
     ncore = len(protos)
-    want = ncore + (70 if quick else 1200)
+    want = ncore + (110 if quick else 2400)
     tries = 0
     while len(protos) < want and tries < 20 * want:
         tries += 1
-        p = G.gen_aggregate_proto(rng) if rng.random() < 0.75 else G.gen_proto(rng, min_fixed=1, cf=True)
+        r = rng.random()
+        p = G.gen_shaped_proto(rng) if r < 0.4 else G.gen_aggregate_proto(rng) if r < 0.85 else G.gen_proto(rng, min_fixed=1, cf=True)
         if C.c2m_expressible(p) is not None:
             protos.append(p)
     protos = [p for p in protos if C.c2m_expressible(p) is not None]
@@ -155,11 +157,15 @@ def c2m_seen_mismatches(p, vals, rets, r, who_sees, who_passed, check_args=True)
             if t.startswith('rblk'):
                 continue
             n = {'i8': 1, 'u8': 1, 'i16': 2, 'u16': 2, 'i32': 4, 'u32': 4}.get(t, len(v))
-            if seen[o:o + n] != v[:n]:
+            cv = (p.get('cval') or [None] * len(vals))[i]   # C shapes: padding bytes carry no value
+            if (seen[o:o + n] != v[:n]) if cv is None else any(seen[o + b] != v[b] for b in cv):
                 bad.append('%s sees argument %d (%s%s) = %s, %s passed %s' % (who_sees, i, t, ' variadic' if i >= p['nfixed'] else '',
                                                                           seen[o:o + n].hex(), who_passed, v[:n].hex()))
     for off, want in C.c_result_bytes(p, rets):
         got = seen[2048 + off:2048 + off + len(want)]
+        if p.get('rval') is not None:
+            keep = [b - off for b in p['rval'] if off <= b < off + len(want)]
+            got, want = bytes(got[b] for b in keep), bytes(want[b] for b in keep)
         if got != want:
             bad.append('%s receives result bytes %s at +%d, %s returned %s' % (who_passed, got.hex(), off, who_sees, want.hex()))
     return bad
@@ -253,6 +259,9 @@ def c2m_shrink(model, p, vals, rets, dirn, engine):
             if p['vararg'] and i < p['nfixed'] and p['nfixed'] <= 1:
                 continue
             p2 = dict(p, args=p['args'][:i] + p['args'][i + 1:], nfixed=p['nfixed'] - (1 if i < p['nfixed'] else 0))
+            if p.get('cty'):
+                p2['cty'] = p['cty'][:i] + p['cty'][i + 1:]
+                p2['cval'] = p['cval'][:i] + p['cval'][i + 1:]
             v2 = vals[:i] + vals[i + 1:]
             if fails(p2, v2):
                 p, vals, changed = p2, v2, True
